@@ -103,6 +103,14 @@ pub struct AggEnv<'a, V, const S: usize> {
     pub agg_id: usize,
     /// index of the input share handed to it
     pub share_index: usize,
+    /// context string used after verify_init (combining shares, verify_next); None = same as `ctx`
+    pub ctx_late: Option<Vec<u8>>,
+}
+
+impl<'a, V, const S: usize> AggEnv<'a, V, S> {
+    fn late(&self) -> &[u8] {
+        self.ctx_late.as_deref().unwrap_or(&self.ctx)
+    }
 }
 
 /// Run verification of one report among all aggregators (any number of rounds).
@@ -123,7 +131,7 @@ where
     V::VerifyState: Encode + for<'a> ParameterizedDecode<(&'a V, usize)>,
 {
     let envs: Vec<AggEnv<V, S>> = (0..input_shares.len())
-        .map(|i| AggEnv { vdaf, verify_key: *verify_key, ctx: ctx.to_vec(), nonce: *nonce, agg_id: i, share_index: i })
+        .map(|i| AggEnv { vdaf, verify_key: *verify_key, ctx: ctx.to_vec(), nonce: *nonce, agg_id: i, share_index: i, ctx_late: None })
         .collect();
     verify_report_ex(&envs, agg_param, public_share, input_shares, opts)
 }
@@ -251,14 +259,14 @@ where
         let mut next_shares = vec![];
         let mut outs = vec![];
         // when all aggregators share the same beliefs the combined message is computed once
-        let uniform = envs.iter().all(|e| std::ptr::eq(e.vdaf, envs[0].vdaf) && e.ctx == envs[0].ctx);
+        let uniform = envs.iter().all(|e| std::ptr::eq(e.vdaf, envs[0].vdaf) && e.late() == envs[0].late());
         let mut shared_msg: Option<V::VerifierMessage> = None;
         for (i, st) in st2.into_iter().enumerate() {
             let env = &envs[i];
             let msg = if let (true, Some(m)) = (uniform, &shared_msg) {
                 m.clone()
             } else {
-                match crate::engine::catch(|| env.vdaf.verifier_shares_to_message(&env.ctx, agg_param, sh2.clone())) {
+                match crate::engine::catch(|| env.vdaf.verifier_shares_to_message(env.late(), agg_param, sh2.clone())) {
                     Ok(Ok(m)) => m,
                     Ok(Err(e)) => return fail(Stage::SharesToMessage(round), e),
                     Err(m) => return fail(Stage::Panic(format!("verifier_shares_to_message[{round}]")), m),
@@ -285,7 +293,7 @@ where
             } else {
                 msg.clone()
             };
-            match crate::engine::catch(|| env.vdaf.verify_next(&env.ctx, st, m)) {
+            match crate::engine::catch(|| env.vdaf.verify_next(env.late(), st, m)) {
                 Ok(Ok(VerifyTransition::Continue(s, sh))) => {
                     next_states.push(s);
                     next_shares.push(sh);
